@@ -441,7 +441,7 @@ def clone(v, memo):
         return r
     if isinstance(v, StrSym):
         return v
-    if type(v).__name__ in ("Masked", "RavelView", "DType", "NanTok", "_Unset"):
+    if type(v).__name__ in ("Masked", "RavelView", "DType", "NanTok", "_Unset", "AggFn", "SuperProxy"):
         return v
     if isinstance(v, set):
         return set(v)
